@@ -86,6 +86,12 @@ def gen(r) -> Dict[str, Any]:
     for _ in range(r.choice([0, 1, 3, 6])):
         jobs.append({"at": round(r.uniform(0, max(t, 1.0)), 3), "dt": r.choice([-1.0, 0.0, 0.0, 0.5, 3.0]),
                      "dur": r.choice([0.0, 0.0, 0.2, 1.0]), "fail": r.random() < 0.1})
+    if r.random() < 0.35:
+        # many jobs pending at once, scheduled in non-chronological order with distinct due times
+        k = r.randint(6, 14)
+        offs = r.sample([round(0.4 * i, 1) for i in range(1, 30)], k)
+        t0j = round(r.uniform(0, 1.0), 3)
+        jobs += [{"at": t0j, "dt": o, "dur": 0.0, "fail": False} for o in offs]
     jobs.sort(key=lambda j: j["at"])
     return {"max_concurrent": mc, "nsrc": nsrc, "pushes": pushes, "jobs": jobs,
             "idle": r.choice([0, 0, 1, 3]), "idle_dur": r.choice([0.01, 0.02, 0.05]),
